@@ -19,6 +19,10 @@ class Ctx:
         self.skip = getattr(mod, "MODEL_SKIP", None)
         # optional CASES_PER_SHARD: modules whose cases are expensive ask for more, smaller shards
         self.kw = {"per_shard": mod.CASES_PER_SHARD} if hasattr(mod, "CASES_PER_SHARD") else {}
+        # optional SHARD_TIMEOUT (seconds): a shard running longer is replayed case by case and the
+        # hanging cases become TIMEOUT lines (default: common.py's one hour)
+        if hasattr(mod, "SHARD_TIMEOUT"):
+            self.kw["timeout"] = mod.SHARD_TIMEOUT
 
     def impl(self, cases, profile=None):
         exe = self.impl_exes[profile or sorted(self.impl_exes)[0]]
